@@ -118,6 +118,13 @@ Proof.
   assert (f / c_fsz c <= off / c_fsz c) by (apply div_le_mono_gen; exact A). lia.
 Qed.
 
+Lemma Forall2_weaken {A B} (P Q : A -> B -> Prop) la lb :
+  (forall a b, P a b -> Q a b) -> Forall2 P la lb -> Forall2 Q la lb.
+Proof. intros H F; induction F; constructor; auto. Qed.
+
+Lemma Forall2_len {A B} (P : A -> B -> Prop) la lb : Forall2 P la lb -> length la = length lb.
+Proof. intros F; induction F; simpl; auto. Qed.
+
 (* ---------- appendValuesInto ---------- *)
 Definition placed (fsz : N) (size0 : N) (vl' : vlog) (kv : bytes * bytes) (off : N) : Prop :=
   (len (snd kv) = 0 -> off = 0) /\
@@ -145,10 +152,12 @@ Proof.
                      (cur_chunk fsz (vl_size vl + len v) - cur_chunk fsz (vl_size vl)))).
   { intros ch Hr. apply in_or_app.
     destruct (N.eq_dec ch (cur_chunk fsz (vl_size vl))) as [->|Hne]; [left; exact Hc|].
-    right. apply in_seqN. Show. lia. }
+    right. apply in_seqN. lia. }
   split.
-  - unfold cur_live, vl_size. cbn [vl_data vl_live]. rewrite len_app. apply Hin.
-    unfold vl_size in Hm. lia.
+  - unfold cur_live. cbn [vl_live].
+    match goal with |- In (cur_chunk fsz ?s) _ => replace s with (vl_size vl + len v)
+      by (unfold vl_size; cbn [vl_data]; rewrite len_app; reflexivity) end.
+    apply Hin. lia.
   - intros ch Hch. apply in_span in Hch; [|lia]. apply Hin.
     unfold cur_chunk at 2. destruct (N.eqb_spec (vl_size vl + len v) 0); [lia|].
     split; [|lia].
@@ -195,7 +204,460 @@ Proof.
               ** rewrite P2, P1. apply take_drop_exact.
               ** unfold vl_size in S1. rewrite P1. unfold vl_size. lia.
            ++ intros ch Hch. apply B. apply P5. exact Hch.
-        -- eapply Forall2_impl; [|exact F]. intros kv o [Q1 Q2]. split; [exact Q1|].
+        -- eapply Forall2_weaken; [|exact F]. intros kv o [Q1 Q2]. split; [exact Q1|].
            intros Hn. destruct (Q2 Hn) as [R1 R2]. split; [lia|exact R2].
       * cbn [snd]. intros _. exact P1.
+Qed.
+
+(* ---------- the entries appendValuesIntoAnyVLog hands to precommit ---------- *)
+Lemma mk_entries_ok fsz size0 vl' v f : forall kvs offs,
+  v < 128 -> vl_size vl' < two55 -> f <= size0 ->
+  Forall2 (placed fsz size0 vl') kvs offs ->
+  Forall (entry_ok vl' v f) (mk_entries kvs offs v) /\
+  Forall (fun e => len (e_val e) = 0 \/
+            forall off, decode_offset (e_voff e) = (v, off) ->
+              forall ch, In ch (span fsz off (len (e_val e))) -> In ch (vl_live vl'))
+         (mk_entries kvs offs v).
+Proof.
+  intros kvs offs Hv Hs Hf F. induction F as [|[k val] off kvs offs [P1 P2] F IH]; cbn [mk_entries].
+  - split; constructor.
+  - destruct IH as [IH1 IH2]. cbn [snd] in *.
+    assert (Hoff : off < two55).
+    { destruct (N.eq_dec (len val) 0) as [Z|NZ]; [rewrite (P1 Z); reflexivity|].
+      destruct (P2 NZ) as [_ [B _]]. lia. }
+    split; constructor; auto.
+    + split; [reflexivity|]. exists off. cbn [e_voff e_val].
+      split; [apply decode_encode; auto|].
+      intros NZ. destruct (P2 NZ) as [A [B [C D]]]. split; [lia|]. split; [exact B|exact C].
+    + cbn [e_voff e_val]. destruct (N.eq_dec (len val) 0) as [Z|NZ]; [left; exact Z|right].
+      intros off' Hd. rewrite decode_encode in Hd by auto.
+      assert (off' = off) by congruence. subst off'. destruct (P2 NZ) as [_ [_ [_ D]]]. exact D.
+Qed.
+
+Lemma mk_entries_head kvs offs v k val r :
+  kvs = (k, val) :: r -> length offs = length kvs ->
+  exists off ro, offs = off :: ro /\
+    mk_entries kvs offs v = {| e_key := k; e_val := val; e_vlen := len val; e_voff := encode_offset off v |}
+                            :: mk_entries r ro v.
+Proof.
+  intros -> Hl. destruct offs as [|off ro]; [simpl in Hl; lia|]. exists off, ro. split; reflexivity.
+Qed.
+
+Definition sizes_le (vls : list vlog) (b : N) : Prop :=
+  forall v vl, get_vl vls v = Some vl -> vl_size vl <= b.
+
+Definition vls_grow (vls vls' : list vlog) : Prop :=
+  forall v vl, get_vl vls v = Some vl ->
+    exists vl', get_vl vls' v = Some vl' /\ vl_dext vl vl' /\ incl (vl_live vl) (vl_live vl').
+
+Lemma vls_grow_refl vls : vls_grow vls vls.
+Proof. intros v vl H; exists vl; repeat split; auto using vl_dext_refl, incl_refl. Qed.
+
+Lemma vls_grow_dext vls vls' : vls_grow vls vls' -> vls_dext vls vls'.
+Proof. intros H v vl G. destruct (H v vl G) as [vl' [A [B _]]]. exists vl'; auto. Qed.
+
+Lemma readable_same c st st' tx : s_vlogs st' = s_vlogs st -> readable c st tx -> readable c st' tx.
+Proof.
+  intros E H. unfold readable in *. eapply Forall_impl; [|exact H]. intros e He.
+  unfold read_entry, read_value_at in *. rewrite E. exact He.
+Qed.
+
+Lemma readable_grow c st st' tx :
+  c_embedded c = false -> tx_ok c (s_vlogs st) tx -> vls_grow (s_vlogs st) (s_vlogs st') ->
+  readable c st tx -> readable c st' tx.
+Proof.
+  intros He Hok Hg Hr. destruct tx as [|e0 rest]; [constructor|].
+  destruct Hok as [v [vl [f [A [B [C [D E]]]]]]].
+  destruct (Hg _ _ C) as [vl' [G [X I]]].
+  eapply (readable_transfer c st st' e0 rest v vl f vl'); eauto.
+Qed.
+
+Lemma find_pending_in w p es : find_pending w p = Some es -> In (w, es) p.
+Proof.
+  unfold find_pending. destruct (find (fun x => fst x =? w) p) as [[w' es']|] eqn:F; [|discriminate].
+  intros H. apply find_some in F as [F1 F2]. simpl in F2. apply N.eqb_eq in F2.
+  simpl in H. assert (es' = es) by congruence. subst. exact F1.
+Qed.
+
+Lemma remove_pending_incl w p : incl (remove_pending w p) p.
+Proof. intros x H. unfold remove_pending in H. apply filter_In in H. tauto. Qed.
+
+(* ---------- do_append ---------- *)
+Definition append_post (c : cfg) (st : state) (b : N) (kvs : list (bytes * bytes)) (st' : state) : Prop :=
+  WF c st' /\ sizes_le (s_vlogs st') (b + kvs_bytes kvs) /\ vls_grow (s_vlogs st) (s_vlogs st') /\
+  s_txs st' = s_txs st /\ s_valmux st' = s_valmux st /\ s_cut st' = s_cut st /\
+  (forall p, In p (s_pending st') -> In p (s_pending st) \/ readable c st' (snd p)).
+
+Lemma do_append_spec c st w v kvs b :
+  c_embedded c = false -> c_maxio c <= 127 -> WF c st ->
+  sizes_le (s_vlogs st) b -> b + kvs_bytes kvs < two55 ->
+  append_post c st b kvs (do_append c st w v kvs).
+Proof.
+  intros He Hm Hwf Hs Hb.
+  assert (Same : append_post c st b kvs st).
+  { unfold append_post. split; [exact Hwf|]. split; [intros x vl G; apply Hs in G; lia|].
+    split; [apply vls_grow_refl|]. repeat split; auto. }
+  unfold do_append. destruct (find_pending w (s_pending st)); [exact Same|].
+  rewrite He. destruct (get_vl (s_vlogs st) v) as [vl|] eqn:G; [|exact Same].
+  destruct (N.ltb_spec (c_maxio c) v) as [L|L]; [exact Same|].
+  clear Same.
+  destruct (append_values (c_fsz c) vl kvs) as [vl' offs] eqn:E.
+  pose proof (wf_cur _ _ Hwf _ _ G) as Hc.
+  destruct (append_values_spec _ _ _ _ _ E Hc) as [A [B [C [D [F Hd]]]]].
+  pose proof (get_vl_some_pos _ _ _ G) as [Hv1 _].
+  assert (Grow : vls_grow (s_vlogs st) (set_vl (s_vlogs st) v vl')).
+  { intros x vlx Gx. destruct (N.eq_dec v x) as [->|Hne].
+    - exists vl'. rewrite (get_set_same _ _ _ _ Gx). assert (vlx = vl) by congruence. subst. auto.
+    - exists vlx. rewrite get_set_other by auto. repeat split; auto using vl_dext_refl, incl_refl. }
+  assert (Sz : vl_size vl' < two55) by (pose proof (Hs _ _ G); lia).
+  (* the new transaction *)
+  assert (New : tx_ok c (set_vl (s_vlogs st) v vl') (mk_entries kvs offs v) /\
+                forall stx, s_vlogs stx = set_vl (s_vlogs st) v vl' -> readable c stx (mk_entries kvs offs v)).
+  { destruct kvs as [|[k val] r].
+    - simpl. split; [exact I|]. intros; constructor.
+    - set (kvs := (k, val) :: r) in *.
+      assert (Ek : kvs = (k, val) :: r) by reflexivity. clearbody kvs.
+      assert (Hl : length offs = length kvs) by (symmetry; eapply Forall2_len; eauto).
+      destruct (mk_entries_head kvs offs v k val r Ek Hl) as [off [ro [Eo Em]]].
+      set (f := off).
+      assert (Hf : f <= vl_size vl).
+      { subst f. rewrite Eo in Hd. rewrite Ek, Eo in F. inversion F; subst. destruct H2 as [P1 P2]. cbn [snd] in *.
+        destruct (N.eq_dec (len val) 0) as [Z|NZ]; [rewrite (P1 Z); lia|]. rewrite (Hd NZ). lia. }
+      assert (Hoff : off < two55).
+      { rewrite Ek, Eo in F. inversion F; subst. destruct H2 as [P1 P2]. cbn [snd] in *.
+        destruct (N.eq_dec (len val) 0) as [Z|NZ]; [rewrite (P1 Z); reflexivity|].
+        destruct (P2 NZ) as [_ [Q _]]. lia. }
+      destruct (mk_entries_ok (c_fsz c) (vl_size vl) vl' v f kvs offs ltac:(lia) Sz Hf F) as [M1 M2].
+      assert (Dec : decode_offset (e_voff {| e_key := k; e_val := val; e_vlen := len val; e_voff := encode_offset off v |}) = (v, f)).
+      { cbn [e_voff]. apply decode_encode; auto. lia. }
+      split.
+      + rewrite Em in *. exists v, vl', f. repeat split; auto. apply get_set_same with (vl := vl). exact G.
+      + intros stx Hx. unfold readable. rewrite Forall_forall in *. intros e Hin.
+        assert (Gx : get_vl (s_vlogs stx) v = Some vl') by (rewrite Hx; eapply get_set_same; eauto).
+        apply (read_ok c stx vl' v f e He (M1 e Hin) Hv1 L Gx). exact (M2 e Hin). }
+  destruct New as [New1 New2].
+  unfold append_post. cbn [s_vlogs s_txs s_pending s_valmux s_cut].
+  split.
+  { constructor; cbn [s_vlogs s_txs s_pending].
+    - rewrite set_vl_length. apply (wf_len _ _ Hwf).
+    - intros x vlx Gx. destruct (N.eq_dec v x) as [->|Hne].
+      + rewrite (get_set_same _ _ _ _ G) in Gx. assert (vlx = vl') by congruence. subst. exact C.
+      + rewrite get_set_other in Gx by auto. eapply wf_cur; eauto.
+    - eapply Forall_impl; [|apply (wf_txs _ _ Hwf)]. intros tx. apply tx_ok_ext. apply vls_grow_dext; exact Grow.
+    - apply Forall_app. split.
+      + eapply Forall_impl; [|apply (wf_pend _ _ Hwf)]. intros p. apply tx_ok_ext. apply vls_grow_dext; exact Grow.
+      + constructor; [exact New1|constructor]. }
+  split.
+  { intros x vlx Gx. destruct (N.eq_dec v x) as [->|Hne].
+    - rewrite (get_set_same _ _ _ _ G) in Gx. assert (vlx = vl') by congruence. subst.
+      pose proof (Hs _ _ G). lia.
+    - rewrite get_set_other in Gx by auto. apply Hs in Gx. lia. }
+  split; [exact Grow|]. repeat split; auto.
+  intros p Hp. apply in_app_or in Hp as [Hp|[<-|[]]]; [left; exact Hp|right].
+  cbn [snd]. apply New2. reflexivity.
+Qed.
+
+(* ---------- transactions by id ---------- *)
+Lemma get_tx_range txs id tx : get_tx txs id = Some tx -> 1 <= id /\ id <= N.of_nat (length txs).
+Proof.
+  unfold get_tx. destruct (N.eqb_spec id 0); [discriminate|]. intros H.
+  assert (N.to_nat (id - 1) < length txs)%nat by (apply nth_error_Some; congruence). lia.
+Qed.
+
+Lemma get_tx_in txs id tx : get_tx txs id = Some tx -> In tx txs.
+Proof.
+  unfold get_tx. destruct (id =? 0); [discriminate|]. apply nth_error_In.
+Qed.
+
+Lemma get_tx_app txs es id tx :
+  get_tx (txs ++ [es]) id = Some tx ->
+  get_tx txs id = Some tx \/ (id = N.of_nat (length txs) + 1 /\ tx = es).
+Proof.
+  unfold get_tx. destruct (N.eqb_spec id 0); [discriminate|]. intros H.
+  destruct (Nat.lt_ge_cases (N.to_nat (id - 1)) (length txs)) as [L|L].
+  - rewrite nth_error_app1 in H by exact L. left; exact H.
+  - rewrite nth_error_app2 in H by exact L.
+    destruct (N.to_nat (id - 1) - length txs)%nat as [|k] eqn:E; simpl in H.
+    + right. split; [lia|congruence].
+    + destruct k; discriminate.
+Qed.
+
+Lemma first_entry_of txs id e0 rest : get_tx txs id = Some (e0 :: rest) -> first_entry txs id = Ok (Some e0).
+Proof. unfold first_entry. intros ->. reflexivity. Qed.
+
+(* ---------- TruncateUptoTx ---------- *)
+(* Whatever the back walk collected, after the front walk the value log `w` keeps its data,
+   loses only chunk files, keeps the chunk being written, and keeps every chunk at or above the
+   one that holds the first entry's offset of ANY committed transaction with id >= n placed in w. *)
+Lemma do_truncate_spec c st n st' d :
+  c_embedded c = false -> 1 <= c_maxio c -> do_truncate c st n = (st', d) ->
+  s_txs st' = s_txs st /\ s_pending st' = s_pending st /\ s_valmux st' = s_valmux st /\
+  length (s_vlogs st') = length (s_vlogs st) /\
+  (s_cut st' = s_cut st \/ (s_cut st' = N.max (s_cut st) n /\ 1 <= n <= committed st)) /\
+  forall w vl, get_vl (s_vlogs st) w = Some vl ->
+    exists vl', get_vl (s_vlogs st') w = Some vl' /\ vl_data vl' = vl_data vl /\
+      incl (vl_live vl') (vl_live vl) /\ (cur_live (c_fsz c) vl -> cur_live (c_fsz c) vl') /\
+      (forall id e0 rest f, n <= id -> get_tx (s_txs st) id = Some (e0 :: rest) ->
+         decode_offset (e_voff e0) = (w, f) ->
+         forall ch, f / c_fsz c <= ch -> In ch (vl_live vl) -> In ch (vl_live vl')).
+Proof.
+  intros He Hm1 H. unfold do_truncate in H. rewrite He in H.
+  assert (Same : st' = st ->
+    s_txs st' = s_txs st /\ s_pending st' = s_pending st /\ s_valmux st' = s_valmux st /\
+    length (s_vlogs st') = length (s_vlogs st) /\
+    (s_cut st' = s_cut st \/ (s_cut st' = N.max (s_cut st) n /\ 1 <= n <= committed st)) /\
+    forall w vl, get_vl (s_vlogs st) w = Some vl ->
+      exists vl', get_vl (s_vlogs st') w = Some vl' /\ vl_data vl' = vl_data vl /\
+        incl (vl_live vl') (vl_live vl) /\ (cur_live (c_fsz c) vl -> cur_live (c_fsz c) vl') /\
+        (forall id e0 rest f, n <= id -> get_tx (s_txs st) id = Some (e0 :: rest) ->
+           decode_offset (e_voff e0) = (w, f) ->
+           forall ch, f / c_fsz c <= ch -> In ch (vl_live vl) -> In ch (vl_live vl'))).
+  { intros ->. repeat split; auto. intros w vl G. exists vl. repeat split; auto using incl_refl. }
+  destruct (back_walk (c_maxio c) (s_txs st) (N.to_nat n) []) as [t1|e|] eqn:B;
+    [|apply Same; congruence|apply Same; congruence].
+  destruct (front_walk (s_txs st) n (N.to_nat (committed st + 1 - n)) t1) as [t2|e|] eqn:F;
+    [|apply Same; congruence|apply Same; congruence].
+  clear Same.
+  destruct (discard_all c (s_vlogs st) t2) as [vls dd] eqn:D.
+  assert (st' = {| s_vlogs := vls; s_txs := s_txs st; s_pending := s_pending st;
+                   s_valmux := s_valmux st; s_cut := N.max (s_cut st) n |}) by congruence.
+  subst st'. cbn [s_vlogs s_txs s_pending s_valmux s_cut].
+  assert (N1 : keys_nodup t1) by (eapply back_walk_nodup; [exact B|constructor]).
+  destruct (front_walk_spec _ _ _ _ _ F N1) as [N2 [_ P]].
+  (* n is a committed id: the first back step reads it *)
+  assert (Hn : 1 <= n <= committed st).
+  { destruct (N.to_nat n) as [|i] eqn:En.
+    - (* n = 0: the front walk starts at id 0, which readTxOffsetAt refuses *)
+      exfalso. assert (n = 0) by lia. subst n.
+      replace (N.to_nat (committed st + 1 - 0)) with (S (N.to_nat (committed st))) in F by lia.
+      cbn [front_walk] in F. unfold first_entry, get_tx in F. simpl in F. discriminate.
+    - cbn [back_walk] in B. simpl length in B.
+      destruct (N.of_nat 0 =? c_maxio c) eqn:Em.
+      + apply N.eqb_eq in Em. simpl in Em. lia.
+      + destruct (first_entry (s_txs st) (N.of_nat (S i))) as [o|e|] eqn:Fe; try discriminate.
+        unfold first_entry in Fe. destruct (get_tx (s_txs st) (N.of_nat (S i))) as [tx|] eqn:G; [|discriminate].
+        apply get_tx_range in G. unfold committed. lia. }
+  split; [reflexivity|]. split; [reflexivity|]. split; [reflexivity|].
+  split; [exact (discard_all_length _ _ _ _ _ D)|].
+  split; [right; split; [reflexivity|exact Hn]|].
+  { intros w vl G.
+    destruct (discard_all_spec c t2 _ _ _ w vl D N2 G) as [vl' [A1 [A2 [A3 [A4 A5]]]]].
+    exists vl'. repeat split; auto.
+    intros id e0 rest f Hid Hg Hd ch Hle Hin.
+    apply (A5 f); auto.
+    intros x Hx. eapply (P id e0 w f); eauto using first_entry_of.
+    apply get_tx_range in Hg. unfold committed. lia. }
+Qed.
+
+Lemma do_truncate_wf c st n st' d :
+  c_embedded c = false -> 1 <= c_maxio c -> WF c st -> do_truncate c st n = (st', d) -> WF c st'.
+Proof.
+  intros He Hm Hwf H.
+  destruct (do_truncate_spec _ _ _ _ _ He Hm H) as [T1 [T2 [T3 [T4 [_ T5]]]]].
+  assert (Dx : vls_dext (s_vlogs st) (s_vlogs st')).
+  { intros w vl G. destruct (T5 _ _ G) as [vl' [A [B _]]]. exists vl'. split; [exact A|].
+    exists []. rewrite B. symmetry; apply app_nil_r. }
+  constructor.
+  - rewrite T4. apply (wf_len _ _ Hwf).
+  - intros w vl' G'.
+    assert (exists vl, get_vl (s_vlogs st) w = Some vl) as [vl G].
+    { unfold get_vl in *. destruct (w =? 0); [discriminate|].
+      destruct (nth_error (s_vlogs st) (N.to_nat (w - 1))) eqn:E; [eauto|].
+      apply nth_error_None in E. rewrite <- T4 in E. apply nth_error_None in E. congruence. }
+    destruct (T5 _ _ G) as [vl2 [A [_ [_ [C _]]]]].
+    assert (vl2 = vl') by congruence. subst. apply C. eapply wf_cur; eauto.
+  - rewrite T1. eapply Forall_impl; [|apply (wf_txs _ _ Hwf)]. intros tx. apply tx_ok_ext; exact Dx.
+  - rewrite T2. eapply Forall_impl; [|apply (wf_pend _ _ Hwf)]. intros p. apply tx_ok_ext; exact Dx.
+Qed.
+
+(* THE safety step: a committed transaction with id >= n that could be read before
+   TruncateUptoTx(n) can be read after it, with the same bytes *)
+Lemma truncate_keeps_readable c st n st' d id tx :
+  c_embedded c = false -> 1 <= c_maxio c -> WF c st -> do_truncate c st n = (st', d) ->
+  n <= id -> get_tx (s_txs st) id = Some tx -> readable c st tx -> readable c st' tx.
+Proof.
+  intros He Hm Hwf H Hid Hg Hr.
+  destruct tx as [|e0 rest]; [constructor|].
+  pose proof (wf_txs _ _ Hwf) as Ht. rewrite Forall_forall in Ht.
+  destruct (Ht _ (get_tx_in _ _ _ Hg)) as [v [vl [f [A [B [C [D E]]]]]]].
+  destruct (do_truncate_spec _ _ _ _ _ He Hm H) as [_ [_ [_ [_ [_ T5]]]]].
+  destruct (T5 _ _ C) as [vl' [G' [Dd [_ [_ K]]]]].
+  eapply (readable_transfer c st st' e0 rest v vl f vl'); eauto.
+  exists []. rewrite Dd. symmetry; apply app_nil_r.
+Qed.
+
+(* ---------- the invariant of runs in which no truncation meets a stalled committer ---------- *)
+Record Inv (c : cfg) (st : state) : Prop := {
+  inv_wf : WF c st;
+  inv_cut : s_cut st <= committed st;
+  inv_txs : forall id tx, s_cut st <= id -> get_tx (s_txs st) id = Some tx -> readable c st tx;
+  inv_pend : forall p, In p (s_pending st) -> readable c st (snd p) }.
+
+Lemma init_wf c : WF c (init c).
+Proof.
+  constructor; simpl.
+  - apply repeat_length.
+  - intros v vl G. unfold get_vl in G. destruct (v =? 0); [discriminate|].
+    apply nth_error_In in G. apply repeat_spec in G. subst. unfold cur_live; simpl. auto.
+  - constructor.
+  - constructor.
+Qed.
+
+Lemma init_inv c : Inv c (init c).
+Proof.
+  constructor; auto using init_wf; simpl.
+  - unfold committed; simpl; lia.
+  - intros id tx _ H. unfold get_tx in H. destruct (id =? 0); [discriminate|].
+    destruct (N.to_nat (id - 1)); discriminate.
+  - tauto.
+Qed.
+
+Lemma init_sizes c : sizes_le (s_vlogs (init c)) 0.
+Proof.
+  intros v vl G. simpl in G. unfold get_vl in G. destruct (v =? 0); [discriminate|].
+  apply nth_error_In in G. apply repeat_spec in G. subst. unfold vl_size, vl_empty, len; simpl. lia.
+Qed.
+
+Definition op_bytes (o : op) : N := match o with OAppend _ _ kvs => kvs_bytes kvs | _ => 0 end.
+
+Lemma ops_bytes_cons o r : ops_bytes (o :: r) = op_bytes o + ops_bytes r.
+Proof. destruct o; reflexivity. Qed.
+
+Lemma do_export_frame fixed c st id :
+  let st' := fst (do_export fixed c st id) in
+  s_vlogs st' = s_vlogs st /\ s_txs st' = s_txs st /\ s_pending st' = s_pending st /\ s_cut st' = s_cut st.
+Proof.
+  unfold do_export. destruct (get_tx (s_txs st) id); [|simpl; auto].
+  destruct (export_loop fixed c st l 0 false [] (s_valmux st)). simpl. auto.
+Qed.
+
+Lemma wf_frame c st st' :
+  s_vlogs st' = s_vlogs st -> s_txs st' = s_txs st -> incl (s_pending st') (s_pending st) ->
+  WF c st -> WF c st'.
+Proof.
+  intros E1 E2 E3 H. constructor.
+  - rewrite E1; apply (wf_len _ _ H).
+  - rewrite E1; apply (wf_cur _ _ H).
+  - rewrite E1, E2; apply (wf_txs _ _ H).
+  - rewrite E1. pose proof (wf_pend _ _ H) as P. rewrite Forall_forall in *. auto.
+Qed.
+
+Lemma inv_frame c st st' :
+  s_vlogs st' = s_vlogs st -> s_txs st' = s_txs st -> incl (s_pending st') (s_pending st) ->
+  s_cut st' = s_cut st -> Inv c st -> Inv c st'.
+Proof.
+  intros E1 E2 E3 E4 H. constructor.
+  - eapply wf_frame; eauto. apply (inv_wf _ _ H).
+  - rewrite E4. unfold committed. rewrite E2. apply (inv_cut _ _ H).
+  - intros id tx Hc Hg. rewrite E4 in Hc. rewrite E2 in Hg.
+    eapply readable_same; [exact E1|]. eapply inv_txs; eauto.
+  - intros p Hp. eapply readable_same; [exact E1|]. eapply inv_pend; eauto.
+Qed.
+
+(* one step keeps WF (no condition on truncations) *)
+Lemma step_wf fixed c st o b :
+  c_embedded c = false -> 1 <= c_maxio c -> c_maxio c <= 127 ->
+  WF c st -> sizes_le (s_vlogs st) b -> b + op_bytes o < two55 ->
+  WF c (fst (step fixed c st o)) /\ sizes_le (s_vlogs (fst (step fixed c st o))) (b + op_bytes o).
+Proof.
+  intros He Hm1 Hm Hwf Hs Hb.
+  assert (Hs0 : sizes_le (s_vlogs st) (b + 0)) by (intros v vl G; apply Hs in G; lia).
+  destruct o as [w v kvs|w|w|n|id| | |]; cbn [step op_bytes fst] in *.
+  - destruct (do_append_spec c st w v kvs b He Hm Hwf Hs Hb) as [A [B _]]. split; auto.
+  - unfold do_commit. destruct (find_pending w (s_pending st)) as [es|] eqn:F; [|split; [exact Hwf|exact Hs0]].
+    split; [|exact Hs0].
+    constructor; cbn [s_vlogs s_txs s_pending]; try apply Hwf.
+    + apply Forall_app. split; [apply Hwf|]. constructor; [|constructor].
+      pose proof (wf_pend _ _ Hwf) as P. rewrite Forall_forall in P.
+      apply (P _ (find_pending_in _ _ _ F)).
+    + pose proof (wf_pend _ _ Hwf) as P. rewrite Forall_forall in *.
+      intros p Hp. apply P. eapply remove_pending_incl; eauto.
+  - split; [|exact Hs0].
+    apply (wf_frame c st (do_abort st w)); [reflexivity|reflexivity|apply remove_pending_incl|exact Hwf].
+  - destruct (do_truncate c st n) as [st' d] eqn:T. cbn [fst]. split.
+    + eapply do_truncate_wf; eauto.
+    + destruct (do_truncate_spec _ _ _ _ _ He Hm1 T) as [_ [_ [_ [T4 [_ T5]]]]].
+      intros w vl' G'.
+      assert (exists vl, get_vl (s_vlogs st) w = Some vl) as [vl G].
+      { unfold get_vl in *. destruct (w =? 0); [discriminate|].
+        destruct (nth_error (s_vlogs st) (N.to_nat (w - 1))) eqn:E; [eauto|].
+        apply nth_error_None in E. rewrite <- T4 in E. apply nth_error_None in E. congruence. }
+      destruct (T5 _ _ G) as [vl2 [A [B _]]]. assert (vl2 = vl') by congruence. subst.
+      apply Hs in G. unfold vl_size in *. rewrite B. lia.
+  - destruct (do_export fixed c st id) as [st' x] eqn:X. cbn [fst].
+    pose proof (do_export_frame fixed c st id) as Fr. rewrite X in Fr. cbn [fst] in Fr.
+    destruct Fr as [E1 [E2 [E3 E4]]]. split.
+    + eapply wf_frame; eauto. rewrite E3; apply incl_refl.
+    + rewrite E1. exact Hs0.
+  - split; [|exact Hs0].
+    apply (wf_frame c st (do_reopen st)); [reflexivity|reflexivity|intros x []|exact Hwf].
+  - split; [exact Hwf|exact Hs0].
+  - split; [exact Hwf|exact Hs0].
+Qed.
+
+(* one step keeps the invariant, provided a truncation finds no stalled committer *)
+Lemma step_inv fixed c st o b :
+  c_embedded c = false -> 1 <= c_maxio c -> c_maxio c <= 127 ->
+  Inv c st -> sizes_le (s_vlogs st) b -> b + op_bytes o < two55 ->
+  (match o with OTruncate _ => s_pending st = [] | _ => True end) ->
+  Inv c (fst (step fixed c st o)).
+Proof.
+  intros He Hm1 Hm Hinv Hs Hb Hq.
+  pose proof (inv_wf _ _ Hinv) as Hwf.
+  destruct o as [w v kvs|w|w|n|id| | |]; cbn [step op_bytes fst] in *.
+  - destruct (do_append_spec c st w v kvs b He Hm Hwf Hs Hb) as [A [B [G [E1 [E2 [E3 P]]]]]].
+    constructor; auto.
+    + rewrite E3. unfold committed. rewrite E1. apply (inv_cut _ _ Hinv).
+    + intros id tx Hc Hg. rewrite E3 in Hc. rewrite E1 in Hg.
+      eapply readable_grow; eauto.
+      * pose proof (wf_txs _ _ Hwf) as Ht. rewrite Forall_forall in Ht. apply Ht. eapply get_tx_in; eauto.
+      * eapply inv_txs; eauto.
+    + intros p Hp. destruct (P p Hp) as [Old|New]; [|exact New].
+      eapply readable_grow; eauto.
+      * pose proof (wf_pend _ _ Hwf) as Ht. rewrite Forall_forall in Ht. apply Ht. exact Old.
+      * eapply inv_pend; eauto.
+  - unfold do_commit. destruct (find_pending w (s_pending st)) as [es|] eqn:F; [|exact Hinv].
+    pose proof (step_wf fixed c st (OCommit w) b He Hm1 Hm Hwf Hs Hb) as [W _].
+    cbn [step fst] in W. unfold do_commit in W. rewrite F in W.
+    constructor; auto; cbn [s_vlogs s_txs s_pending s_cut].
+    + pose proof (inv_cut _ _ Hinv). unfold committed in *. cbn [s_txs]. rewrite app_length. simpl. lia.
+    + intros id tx Hc Hg. apply get_tx_app in Hg as [Hg|[_ ->]].
+      * eapply readable_same; [|eapply inv_txs; eauto]. reflexivity.
+      * eapply readable_same; [|eapply (inv_pend _ _ Hinv (w, es)); eauto using find_pending_in]. reflexivity.
+    + intros p Hp. eapply readable_same; [|eapply inv_pend; eauto using remove_pending_incl]. reflexivity.
+      eapply remove_pending_incl; eauto.
+  - apply (inv_frame c st (do_abort st w)); [reflexivity|reflexivity|apply remove_pending_incl|reflexivity|exact Hinv].
+  - destruct (do_truncate c st n) as [st' d] eqn:T. cbn [fst].
+    destruct (do_truncate_spec _ _ _ _ _ He Hm1 T) as [T1 [T2 [T3 [T4 [T6 T5]]]]].
+    constructor.
+    + eapply do_truncate_wf; eauto.
+    + unfold committed. rewrite T1. pose proof (inv_cut _ _ Hinv). unfold committed in *.
+      destruct T6 as [->|[-> Hn]]; lia.
+    + intros id tx Hc Hg. rewrite T1 in Hg.
+      destruct T6 as [E|[E Hn]].
+      * (* the walks failed: nothing was deleted *)
+        rewrite E in Hc.
+        destruct (N.le_gt_cases n id) as [L|L].
+        -- eapply truncate_keeps_readable; eauto. eapply inv_txs; eauto.
+        -- (* also covered: state unchanged or only lower ids affected *)
+           assert (st' = st \/ True) by auto.
+           unfold do_truncate in T. rewrite He in T.
+           destruct (back_walk (c_maxio c) (s_txs st) (N.to_nat n) []) as [t1|e|].
+           ++ destruct (front_walk (s_txs st) n (N.to_nat (committed st + 1 - n)) t1) as [t2|e|].
+              ** destruct (discard_all c (s_vlogs st) t2) as [vls dd].
+                 assert (S : s_cut st' = N.max (s_cut st) n) by (inversion T; reflexivity).
+                 (* then max cut n = cut, so n <= cut <= id, contradiction with id < n *)
+                 lia.
+              ** assert (st' = st) by congruence. subst. eapply inv_txs; eauto.
+              ** assert (st' = st) by congruence. subst. eapply inv_txs; eauto.
+           ++ assert (st' = st) by congruence. subst. eapply inv_txs; eauto.
+           ++ assert (st' = st) by congruence. subst. eapply inv_txs; eauto.
+      * rewrite E in Hc. eapply truncate_keeps_readable; eauto; [lia|]. eapply inv_txs; eauto. lia.
+    + rewrite T2, Hq. intros p [].
+  - destruct (do_export fixed c st id) as [st' x] eqn:X. cbn [fst].
+    pose proof (do_export_frame fixed c st id) as Fr. rewrite X in Fr. cbn [fst] in Fr.
+    destruct Fr as [E1 [E2 [E3 E4]]]. eapply inv_frame; eauto. rewrite E3; apply incl_refl.
+  - apply (inv_frame c st (do_reopen st)); [reflexivity|reflexivity|intros x []|reflexivity|exact Hinv].
+  - exact Hinv.
+  - exact Hinv.
 Qed.
